@@ -115,13 +115,14 @@ class Enumerator:
       (None = fork both ways).
     stop_at(state, bi) optional: prune."""
 
-    def __init__(self, fn, init_disc=None, bool_oracle=None, max_paths=60000, max_visits=1, on_call=None):
+    def __init__(self, fn, init_disc=None, bool_oracle=None, max_paths=60000, max_visits=1, on_call=None, prune=None):
         self.fn = fn
         self.init_disc = init_disc or {}
         self.bool_oracle = bool_oracle
         self.max_paths = max_paths
         self.max_visits = max_visits
         self.on_call = on_call
+        self.prune = prune
         self.npaths = 0
 
     # ---- abstract values -------------------------------------------------
@@ -163,6 +164,8 @@ class Enumerator:
                 return  # loop: abandon (paths through another iteration add no new discriminant facts)
             st.visits[bi] = c + 1
             st.trail.append(bi)
+            if self.prune is not None and self.prune(st, bi):
+                return
             blk = fn.blocks[bi]
             for s in blk["st"]:
                 if s["k"] != "assign":
